@@ -135,6 +135,20 @@ def make_cases(ctx, first):
             repo = w.repo()
             for _ in range(rng.randrange(0, 3)):
                 w.mutate(repo)
+            if rng.random() < 0.25:
+                # one image under two tags, one of the tags deleted, another manifest deleted by digest (the removals reorder
+                # index.json: an un-annotated entry of the image can end up in front of its tagged one), everything old
+                g_ = w.g[repo]
+                other = w.image(repo, tag=None)
+                img_d = w.image(repo, tag="t1")
+                w.add(manifest_put(repo, "t2", g_.bytes[img_d], ctype=MT_OCI_M))
+                g_.tags["t2"] = img_d
+                w.add(manifest_delete(repo, rng.choice(["t1", "t2"])))
+                if rng.random() < 0.8:
+                    w.add(manifest_delete(repo, other))
+                for t_ in ("t1", "t2"):
+                    g_.tags.pop(t_, None)         # (the oracle derives the tags from the responses)
+                w.age(repo, "all")
             r = rng.random()
             if r < 0.35:
                 w.age(repo, "all")
